@@ -250,7 +250,7 @@ def main():
             "exhaustive": False,
             **extra,
         },
-        "assumptions": getattr(P, "ASSUMPTIONS", []),
+        "assumptions": list(getattr(P, "ASSUMPTIONS", [])) + cx.assumptions_of(mods),
         "wall_s": round(wall, 2),
         "violations": len(viol_lines),
     }
